@@ -43,7 +43,7 @@ def law_inline_mode(job):
     base["bh"] = C.cps(md.render(src))
     toks = md.parseInline(src, env2)
     der = {"lines": [], "toks": [A.tok(t) for t in toks], "refs": [], "dups": [], "dh": C.cps(md.renderInline(src))}
-    return {"op": "inline_mode", "maxn": md.options["maxNesting"], "a": {"src": C.ascii_safe(src)}, "base": base, "der": der}
+    return {"op": "inline_mode", "maxn": md.options["maxNesting"], "a": {"src": C.ascii_safe(src), "t": C.cps(src)}, "base": base, "der": der}
 
 
 def law_embed(job):
